@@ -369,6 +369,15 @@ class Intervals:
                     first = False
                 if good and not first:
                     return meet(ty_range(last["ty"]), out) if ty_range(last["ty"]) else out
+        if last["k"] == "field" and len(pl["proj"]) == 2 and pl["proj"][0]["k"] == "downcast" and pl["proj"][0]["variant"] == "Some":
+            # `match a.checked_sub(b) { Some(d) => .. }`: d = a - b without underflow
+            ds = fn.whole_defs(pl["local"])
+            if len(ds) == 1 and ds[0][0] == "call" and callee_of(ds[0][1]).rsplit("::", 1)[-1] == "checked_sub" and len(ds[0][1]["args"]) == 2:
+                a = self.operand(fn, ds[0][1]["args"][0], ds[0][2], depth + 1, seen)
+                b = self.operand(fn, ds[0][1]["args"][1], ds[0][2], depth + 1, seen)
+                tr = ty_range(last["ty"])
+                if a is not None and b is not None and tr is not None and tr[0] == 0:
+                    return (max(0, a[0] - b[1]), max(0, a[1] - b[0]))
         if last["k"] == "field" and len(pl["proj"]) >= 2 and pl["proj"][-2]["k"] == "downcast" and pl["proj"][-2]["variant"] == "Some" and len(pl["proj"]) == 2:
             ds = fn.whole_defs(pl["local"])
             if len(ds) == 1 and ds[0][0] == "call" and "iter::range::<impl" in callee_of(ds[0][1]) and callee_of(ds[0][1]).endswith("::next"):
